@@ -13,7 +13,7 @@ TRUSTED_BASE = [
 
 PROPS = {
     'C18': {
-        'suites': [('c18', 400, 20000), ('c18w', 120, 3000)],
+        'suites': [('c18', 400, 20000), ('c18w', 120, 1500)],
         'rule': 'c18: random lists of 0-5 websocket messages (sizes around 0/1/1023/1024/1025/2048, 4% text) x random read-size sequences '
                 '(bufio-like 1024, mixed, tiny); non-trivial = total payload > 0, more than one read, and some read size strictly inside a message; '
                 'distinct = distinct case inputs. c18w (wire level): one MQTT byte stream (CONNECT, SUBSCRIBE, 1-12 QoS 1 PUBLISH of 0-1500 bytes to the own subscription, PINGREQ; 3.1 / 3.1.1 / 5; '
@@ -76,7 +76,7 @@ PROPS = {
         'assumptions': [], 'trusted': [],
     },
     'C13': {
-        'props': ['C13', 'C13w', 'C13v', 'C13b'], 'suites': [('alias', 2000, 100000), ('cfgv', 1500, 40000), ('w_c13', 200, 6000)],
+        'props': ['C13', 'C13w', 'C13v', 'C13b'], 'suites': [('alias', 2000, 100000), ('cfgv', 1500, 20000), ('w_c13', 200, 6000)],
         'rule': 'alias: topic sequences over a pool of 1-8 topics against the fifo alias manager with maxima 0,1,2,3,5,65535; non-trivial = an alias was reused and an eviction happened. '
                 'cfgv: configurations (maximum_qos, max_queued_messages incl. <= 0, server_receive_maximum, max_packet_size, max_inflight at 0 / 1 / = / > max_queued_messages, delivery modes incl. unknown ones) through the real config.MQTT.Validate '
                 'and through the guard list regenerated from its source (Gen/ValidateTable.v); oracle: accepted iff the documented constraints hold',
@@ -127,7 +127,7 @@ PROPS = {
         'trusted': ['harness/codec.go independent encoder'],
     },
     'C09': {
-        'props': ['C09', 'C09e', 'C09s'], 'suites': [('rsub', 600, 40000), ('runack', 600, 40000), ('rsess', 1000, 40000), ('penc', 1500, 60000), ('crash', 24, 1500)],
+        'props': ['C09', 'C09e', 'C09s'], 'suites': [('rsub', 600, 40000), ('runack', 600, 40000), ('rsess', 1000, 20000), ('penc', 1500, 8000), ('crash', 24, 1500)],
         'rule': 'crash: broker-level histories (3 clients, 6-24 steps: persistent sessions, subscriptions with all options, unsubscribes, QoS1/2 publishes to online/offline subscribers, partial ack flows) on the redis backend over an in-process RESP stand-in '
                 'that journals every write command; for EVERY prefix of the journal a fresh broker is started on the prefix state (start-up must succeed) and sessions, subscriptions, redelivery and QoS2 duplicate recognition are inspected against what had been acknowledged. '
                 'rsub/runack: store-level histories incl. restarts against the extracted models. '
@@ -177,7 +177,7 @@ PROPS = {
         'assumptions': [], 'trusted': ['/verif/gen translators report what the source says'],
     },
     'C20': {
-        'suites': [('w_c20', 200, 6000), ('c20r', 30, 600), ('ctb', 400, 5000)],
+        'suites': [('w_c20', 200, 6000), ('c20r', 30, 300), ('ctb', 400, 5000)],
         'rule': 'c20r: a session with client id x1 (3.1 / 3.1.1 / 5) and 1-3 refused v5 CONNECTs (Authentication Method, no enhanced authentication configured) that claim the same client id, before the session connects or while it is online; the per-client counters of x1 must show exactly its own CONNECT and CONNACK. w_c20: wire workloads of up to three client ids (v3.1/3.1.1/5; all packet types incl. AUTH, QoS 0-2, drops of every kind: queue full, expired, in-flight expired, exceeds maximum packet size; reconnects, take-overs, terminate, session expiry) with an (inspect) after every step; '
                 'the statistics returned by StatsManager are compared field by field with (a) the extracted Coq model of stats.go driven by the event log and (b) the ground truth computed from the packet log, queue contents and session tables',
         'assumptions': ['PINGREQ/PINGRESP counters are removed by the runner (its barrier pings)', 'drop ground truth is the OnMsgDropped hook log',
